@@ -303,6 +303,26 @@ def main():
         except Exception as e:  # noqa
             ck.count('sanitizer_build_failed')
             ck.cov['sanitizer_note'] = str(e)[-300:]
+    # a run in which the program writes more than a pipe buffer of messages on its standard error (debug level 100, the
+    # default of wordseg-ag, and 800 iterations): the wrapper must drain them while the program runs, and return
+    import threading
+    tu = [['a', 'b', 'c'], ['b', 'a'], ['c', 'a', 'b']]
+    box = []
+    os.environ['WORDSEG_VERIF_BINDIR'] = bindir_real
+
+    def chatty():
+        box.append(call_impl(ag.segment, gens.lines(tu), args='-n 800 -x 400 -r 7 -d 100', nruns=1, njobs=1))
+    th = threading.Thread(target=chatty, daemon=True)
+    th.start()
+    th.join(120)
+    os.environ['WORDSEG_VERIF_BINDIR'] = os.path.join(VERIF, 'harness', 'stubs')
+    res = box[0] if box else ('raise', 'HANG (no answer after 120 s)')
+    ck.case('chatty-stderr', True, sample={'args': '-n 800 -x 400 -r 7 -d 100', 'result': res[0] if res[0] == 'raise' else res[1]})
+    ck.count('family:chatty-stderr')
+    why = ('segment raised ' + res[1]) if res[0] != 'ok' else gens.aligned(tu, res[1])
+    if why:
+        ck.violation({'site': 'ag.segment', 'input': {'text': gens.lines(tu), 'args': '-n 800 -x 400 -r 7 -d 100', 'nruns': 1}},
+                     'property fails on the implementation: ' + why)
     # units spelled like a non-terminal of the auto-generated grammar (Colloc0, Colloc0s, Phoneme, Phonemes, Sentence): the
     # rule "Phoneme --> Colloc0" makes the unit a non-terminal and the grammar cyclic (known finding)
     for unit in ('Colloc0', 'Sentence', 'Phonemes'):
